@@ -334,6 +334,10 @@ def export_context(doc):
     return c
 
 
+_STDOUT = None
+_GRAPHN = 0
+
+
 def run_quiet(f, *a, **k):
     with contextlib.redirect_stdout(io.StringIO()), contextlib.redirect_stderr(io.StringIO()):
         return f(*a, **k)
@@ -434,6 +438,11 @@ def record_call(doc, call):
         elif op == 'opaque':
             what = call['_what']
             if what == 'graph':
+                global _GRAPHN
+                _GRAPHN += 1
+                if _GRAPHN % 2 == 0:
+                    what = 'graph_stdout'             # every other graph export goes to the standard output (fp=None)
+            if what == 'graph':
                 import tempfile
                 import os
                 d = tempfile.mkdtemp(prefix='kernpy_graph_')
@@ -442,6 +451,19 @@ def record_call(doc, call):
                 finally:
                     import shutil
                     shutil.rmtree(d, ignore_errors=True)
+            elif what == 'graph_stdout':
+                # the graph printed on the standard output (fp=None): the stream belongs to the process - it must still be open and
+                # usable afterwards (a later call that prints must behave as in a fresh process)
+                global _STDOUT
+                if _STDOUT is None or _STDOUT.closed:
+                    _STDOUT = io.StringIO()
+                _STDOUT.seek(0)
+                _STDOUT.truncate()
+                with contextlib.redirect_stdout(_STDOUT), contextlib.redirect_stderr(io.StringIO()):
+                    kp.graph(doc, None)
+                ev['intact'] = not _STDOUT.closed
+                if ev['intact']:
+                    print('', file=_STDOUT)
             elif what == 'tokens_to_encodings':
                 kp.Document.tokens_to_encodings(doc.get_all_tokens())
             elif what == 'header_nodes':
